@@ -15,7 +15,7 @@ From Coq Require Import Reals ZArith.
 From Coquelicot Require Import Complex.
 From Flocq Require Import Core.Raux.
 From Verif Require Import lib.C07_Base C07.Model C07.ProofsBasic C07.ProofsGabor C07.ProofsGammatone
-  C07.ProofsTri gen.C07Filters C07.Tie C07.ProofsExamples.
+  C07.ProofsTri C07.ProofsLoops C07.ProofsExtra gen.C07Filters C07.Tie C07.ProofsExamples.
 Open Scope R_scope.
 
 (** * "the impulse response is real exactly when is_real" (dtype level) *)
@@ -23,6 +23,12 @@ Theorem ir_real_iff_is_real : forall k analytic,
   ir_dtype k analytic = Model.Float64 <-> is_real k analytic = true.
 Proof. exact ir_real_iff_is_real_l. Qed.
 Print Assumptions ir_real_iff_is_real.
+
+(* value level, triangular bank: no imaginary part when is_real *)
+Theorem tri_ir_real_valued : forall l m r W j, l < m < r -> (0 <= j < W)%Z ->
+  snd (tri_ir false l m r W j) = 0.
+Proof. exact tri_ir_real_valued_l. Qed.
+Print Assumptions tri_ir_real_valued.
 
 (** * supports: zero-phase banks straddle sample 0, causal gammatones start at 0 *)
 Theorem tri_supports_straddle_zero : forall eps l m r, 0 < eps -> l < m < r ->
@@ -162,6 +168,30 @@ Theorem gammatone_fr_outside_supports_hz : forall eps n log_alpha xi offset W id
   Cmod (gt_fr (exp log_c) (exp log_alpha) xi n offset (xi - diff) (xi + diff) W idx) < 5 / 2 * eps.
 Proof. exact gt_fr_outside_supports_l. Qed.
 Print Assumptions gammatone_fr_outside_supports_hz.
+
+(* the hypothesis "outside supports_ang modulo 2 pi" of the two theorems above is the
+   property's "outside supports_hz modulo the sampling rate" (supports_hz = a2h supports_ang,
+   bin idx sits at idx * rate / W Hz) *)
+Theorem outside_hz_iff_ang : forall lo hi rate x, 0 < rate ->
+  (outside_mod_R (a2h lo rate) (a2h hi rate) rate (a2h x rate) <-> outside_mod_R lo hi (2 * PI) x).
+Proof. exact outside_hz_iff_ang_l. Qed.
+Print Assumptions outside_hz_iff_ang.
+
+Theorem bin_frequency : forall rate (W idx : Z), 0 < rate -> (0 < W)%Z ->
+  a2h (IZR idx * 2 * PI / IZR W) rate = IZR idx * rate / IZR W.
+Proof. exact bin_frequency_l. Qed.
+Print Assumptions bin_frequency.
+
+(** * the accumulation loops leave the closed forms used above *)
+Theorem gabor_ir_loop_closed_form : forall l2 std xi W j, (0 <= j < W)%Z ->
+  acc_read (gabor_ir_writes l2 std xi W) j = gabor_ir l2 std xi W j.
+Proof. exact gabor_ir_loop_closed_form_l. Qed.
+Print Assumptions gabor_ir_loop_closed_form.
+
+Theorem tri_ir_loop_closed_form : forall analytic l m r W j, (0 <= j < W)%Z ->
+  tri_ir_loop analytic l m r W j = tri_ir analytic l m r W j.
+Proof. exact tri_ir_loop_closed_form_l. Qed.
+Print Assumptions tri_ir_loop_closed_form.
 
 (** * the tie: generated-from-source definitions equal the model *)
 Theorem threshold_in_range : 0 < src_eps <= 1 / 2.
